@@ -5,16 +5,21 @@
   `True == 1`, dict key order irrelevant) modulo object keys whose value is `null` (`J.dropNulls`;
   Kubernetes never stores such keys, `diff_iter(None, None)` yields nothing). Both deviations from
   plain structural equality are visible below and shown necessary by witnesses.
+
+  All theorems quantify over ALL well-formed JSON values (`J.WF`: object keys unique — what
+  `json.loads` produces); there is no bound on nesting or size.
 -/
 import Kopf.Model.C04_Diff
 import Kopf.Model.C04_Essence
-import Kopf.Lemmas.C04_Diff
+import Kopf.Lemmas.C04_Payload
 namespace Kopf.C04
 open Kopf Kopf.J
 
 /-- Python equality modulo null-valued object keys. -/
 def Equiv (a b : J) : Prop := pyEq (dropNulls a) (dropNulls b) = true
 infix:50 " ≈ " => Equiv
+
+/-! ## the diff -/
 
 /-- `diff a a = []` for every well-formed `a` (any nesting). -/
 theorem diff_self_empty (a : J) (p : Path) (h : J.WF a) : diff a a p = [] :=
@@ -24,6 +29,42 @@ theorem diff_self_empty (a : J) (p : Path) (h : J.WF a) : diff a a p = [] :=
 theorem diff_empty_iff (a b : J) (p : Path) (ha : J.WF a) (hb : J.WF b) :
     diff a b p = [] ↔ a ≈ b :=
   diff_nil_iff a b p ha hb
+
+/-- applying the diff to old yields new (up to `≈`), and the result is well-formed. -/
+theorem apply_diff (a b : J) (ha : J.WF a) (hb : J.WF b) :
+    applyDiff (diff a b []) a ≈ b ∧ J.WF (applyDiff (diff a b []) a) :=
+  ⟨(apply_diff_aux a b ha hb).2, (apply_diff_aux a b ha hb).1⟩
+
+/-- narrowing the diff to a handler's field is exact: `reduce` of the whole-object diff **is** the
+    diff of the two values at that field (`dicts.resolve(old, field, None)` etc. — what
+    `ResourceHandler.adjust_cause` passes as old/new), item for item, for every path. -/
+theorem reduce_exact (a b : J) (p : Path) (ha : J.WF a) (hb : J.WF b) :
+    reduce (diff a b []) p = diff (resolveD a p) (resolveD b p) [] :=
+  reduce_diff p a b ha hb
+
+theorem wf_resolveD (p : Path) : ∀ (a : J), J.WF a → J.WF (resolveD a p) := by
+  induction p with
+  | nil => intro a h; simpa [resolveD_nil] using h
+  | cons k q ih =>
+    intro a h
+    cases a with
+    | obj kvs =>
+      rw [resolveD_obj_cons]
+      cases hl : lookup k kvs with
+      | none => rfl
+      | some x => exact ih x (wf_of_lookup (by simpa [J.WF, wf] using h) hl)
+    | _ => rfl
+
+/-- consequently the field-narrowed old/new/diff triple a handler receives obeys the same two laws. -/
+theorem reduce_apply (a b : J) (p : Path) (ha : J.WF a) (hb : J.WF b) :
+    applyDiff (reduce (diff a b []) p) (resolveD a p) ≈ resolveD b p := by
+  rw [reduce_exact a b p ha hb]
+  exact (apply_diff _ _ (wf_resolveD p a ha) (wf_resolveD p b hb)).1
+
+theorem reduce_empty_iff (a b : J) (p : Path) (ha : J.WF a) (hb : J.WF b) :
+    reduce (diff a b []) p = [] ↔ resolveD a p ≈ resolveD b p := by
+  rw [reduce_exact a b p ha hb]
+  exact diff_empty_iff _ _ [] (wf_resolveD p a ha) (wf_resolveD p b hb)
 
 /-- F7, bool-vs-int: `1` and `true` are different JSON values, yet the diff is empty — the strict
     reading of "empty only if nothing differs" is false of the code (known finding F7). -/
@@ -43,5 +84,195 @@ theorem null_absent_witness :
 example : J.WF (.obj [("spec", .obj [("a", .num 1), ("b", .arr [.null, .obj []])])]) := by unfold J.WF; decide
 example : (J.obj [("a", .num 1), ("b", .null)]) ≈ (J.obj [("a", .bool true)]) := by unfold Equiv; decide
 example : ¬ ((J.obj [("a", .num 1)]) ≈ (J.obj [("a", .num 2)])) := by unfold Equiv; decide
+
+/-! ## the essence: what never counts -/
+
+/-- **The status stanza never counts**: setting `status` to anything leaves the essence unchanged,
+    for every storage configuration (`cfg` arbitrary), every body, every set of handler fields that
+    stay out of `status`. (Handler fields inside `status` are excluded — see F8.) -/
+theorem status_invisible (cfg : Cfg) (extra : List (List String)) (kvs : Kvs) (v : J)
+    (hx : ExtraAvoids "status" extra) :
+    essence cfg extra (.obj (J.insert "status" v kvs)) = essence cfg extra (.obj kvs) :=
+  essence_congr cfg (sameView_insert_status kvs v extra hx)
+
+theorem status_removal_invisible (cfg : Cfg) (extra : List (List String)) (kvs : Kvs)
+    (hx : ExtraAvoids "status" extra) :
+    essence cfg extra (.obj (erase "status" kvs)) = essence cfg extra (.obj kvs) :=
+  essence_congr cfg (sameView_erase_status kvs extra hx)
+
+/-- **System metadata and finalizers never count**: replacing `metadata` by any mapping `m'` that has
+    the same `labels`, `annotations` and `ownerReferences` (so: any change of resourceVersion,
+    generation, managedFields, uid, finalizers, deletionTimestamp, …; `ownerReferences` only feeds the
+    ReplicaSet-of-Deployment key mark) leaves the essence unchanged — every configuration, every body. -/
+theorem system_metadata_invisible (cfg : Cfg) (extra : List (List String)) (kvs m m' : Kvs)
+    (hm : lookup "metadata" kvs = some (.obj m))
+    (hlab : lookup "labels" m' = lookup "labels" m) (hann : lookup "annotations" m' = lookup "annotations" m)
+    (hown : lookup "ownerReferences" m' = lookup "ownerReferences" m) (hx : ExtraMetaOK m m' extra) :
+    essence cfg extra (.obj (J.insert "metadata" (.obj m') kvs)) = essence cfg extra (.obj kvs) :=
+  essence_congr cfg (sameView_metadata kvs m m' extra hm hlab hann hown hx)
+
+/-- instance: adding/removing/changing the finalizer list. -/
+theorem finalizers_invisible (cfg : Cfg) (extra : List (List String)) (kvs m : Kvs) (fins : J)
+    (hm : lookup "metadata" kvs = some (.obj m)) (hx : ExtraAvoids "metadata" extra) :
+    essence cfg extra (.obj (J.insert "metadata" (.obj (J.insert "finalizers" fins m)) kvs)) =
+      essence cfg extra (.obj kvs) := by
+  refine system_metadata_invisible cfg extra kvs m _ hm ?_ ?_ ?_ ?_
+  · exact lookup_insert_other _ m (by decide)
+  · exact lookup_insert_other _ m (by decide)
+  · exact lookup_insert_other _ m (by decide)
+  · intro f hf
+    obtain ⟨k, ks, h1, h2⟩ := hx f hf
+    exact Or.inl ⟨k, ks, h1, h2⟩
+
+/-- **Own and other operators' annotations never count (no self-trigger, no ping-pong)**: an
+    annotation `k0` whose prefix is marked as a Kopf operator's — it is `kopf.zalando.org` or a
+    sub-domain (the default of both storages), or some *other* annotation marks it (the
+    `kopf-managed` marker the storages write with every store/touch, or a key under a known prefix) —
+    can be set, changed or removed (`A'` agrees with `A` off `k0`): the essence is unchanged. Every
+    configuration, body, handler-field set that stays out of `metadata.annotations`. -/
+theorem marked_annotation_invisible (cfg : Cfg) (extra : List (List String)) (kvs m A A' : Kvs)
+    (k0 : String) (p0 : List Char)
+    (hm : lookup "metadata" kvs = some (.obj m)) (ha : lookup "annotations" m = some (.obj A))
+    (hd : A'.filter (fun kv => kv.1 != k0) = A.filter (fun kv => kv.1 != k0))
+    (hp0 : pfx k0 = some p0) (hr : Robust A k0 p0) (hx : ExtraAnnOK extra) :
+    essence cfg extra (.obj (withAnn kvs m A')) = essence cfg extra (.obj kvs) :=
+  essence_withAnn cfg extra hm ha hd hp0 hr hx
+
+/-- the hypotheses are met by the default storages' keys … -/
+example : pfx "kopf.zalando.org/last-handled-configuration" = some "kopf.zalando.org".toList
+    ∧ knownish "kopf.zalando.org".toList = true := by decide
+example : pfx "kopf.zalando.org/touch-dummy" = some "kopf.zalando.org".toList := by decide
+/-- … and by a custom prefix once its marker is there. -/
+example : Robust [("my-op.example.com/kopf-managed", .str "yes")] "my-op.example.com/create_fn" "my-op.example.com".toList :=
+  Or.inr ⟨"my-op.example.com/kopf-managed", by decide, by decide, by decide⟩
+
+/-- the marker matters: the *first* write under a custom, not yet marked prefix removes a foreign
+    annotation squatting under that prefix from the essence (documented assumption: the operator's
+    prefix is reserved for the operator). -/
+theorem marker_first_write_witness :
+    let keep (A : Kvs) := keys (A.filter (fun kv => keepAnnotation (markedPrefixes (keys A)) kv.1))
+    keep [("my-op.example.com/user", .str "x")] = ["my-op.example.com/user"]
+    ∧ keep [("my-op.example.com/user", .str "x"), ("my-op.example.com/kopf-managed", .str "yes")] = [] := by
+  decide
+
+/-! ## the essence: what does count -/
+
+/-- **Every payload stanza is in the essence, exactly**: for a top-level key other than
+    apiVersion/kind/metadata/status which no configured ignored/storage field starts with, the essence
+    holds the body's value unchanged (or lacks it iff the body does) — all configurations, all bodies,
+    all handler fields. -/
+theorem payload_exact (cfg : Cfg) (extra : List (List String)) (kvs : Kvs) (e : J) (k : String)
+    (hk : PayloadKey k) (hd : AvoidKey k (diffbaseFields cfg.diffbase)) (hp : AvoidKey k (progressFields cfg.progress))
+    (h : essence cfg extra (.obj kvs) = .ok e) : e.get? k = lookup k kvs :=
+  essence_get? hk hd hp h
+
+/-- the essence is injective on the payload part. -/
+theorem essence_injective_on_payload (cfg : Cfg) (extra : List (List String)) (kvs kvs' : Kvs) (e : J) (k : String)
+    (hk : PayloadKey k) (hd : AvoidKey k (diffbaseFields cfg.diffbase)) (hp : AvoidKey k (progressFields cfg.progress))
+    (h : essence cfg extra (.obj kvs) = .ok e) (h' : essence cfg extra (.obj kvs') = .ok e) :
+    lookup k kvs = lookup k kvs' := by
+  rw [← payload_exact cfg extra kvs e k hk hd hp h, ← payload_exact cfg extra kvs' e k hk hd hp h']
+
+/-- **Any change of a payload field counts**: if a payload stanza differs (not `≈`) between two
+    bodies, the diff of their essences is non-empty — handling is triggered.
+    (`WF` of the two essences is a hypothesis here: it holds for every parsed JSON; the preservation
+    of `WF` by `essence` is not proved in Lean.) -/
+theorem payload_change_detected (cfg : Cfg) (extra : List (List String)) (kvs kvs' : Kvs) (e e' x y : J) (k : String)
+    (hk : PayloadKey k) (hd : AvoidKey k (diffbaseFields cfg.diffbase)) (hp : AvoidKey k (progressFields cfg.progress))
+    (h : essence cfg extra (.obj kvs) = .ok e) (h' : essence cfg extra (.obj kvs') = .ok e')
+    (hwe : J.WF e) (hwe' : J.WF e')
+    (hx : lookup k kvs = some x) (hy : lookup k kvs' = some y) (hne : ¬ x ≈ y) :
+    diff e e' [] ≠ [] := by
+  intro hnil
+  have heq := (diff_empty_iff e e' [] hwe hwe').1 hnil
+  have g := payload_exact cfg extra kvs e k hk hd hp h
+  have g' := payload_exact cfg extra kvs' e' k hk hd hp h'
+  rw [hx] at g
+  rw [hy] at g'
+  cases e with
+  | obj ke =>
+    cases e' with
+    | obj ke' =>
+      have hk1 := (eqv_obj_iff (by simpa [J.WF, wf] using hwe) (by simpa [J.WF, wf] using hwe')).1 heq k
+      simp only [get?] at g g'
+      rw [g, g'] at hk1
+      exact hne ((optRel_dn_some x y).1 hk1)
+    | _ => simp [get?] at g'
+  | _ => simp [get?] at g
+
+/-- an ordinary annotation (its prefix is not marked by any annotation of the object, and it is not
+    kubectl's last-applied one) passes the annotation filter of `build`; one under a marked prefix
+    does not. -/
+theorem ordinary_annotation_kept (A : Kvs) (k : String) (v : J) (hm : (k, v) ∈ A) (hl : k ≠ lastApplied)
+    (hu : ∀ p, pfx k = some p → p ∉ markedPrefixes (keys A)) :
+    (k, v) ∈ A.filter (fun kv => keepAnnotation (markedPrefixes (keys A)) kv.1) := by
+  refine List.mem_filter.2 ⟨hm, ?_⟩
+  have : (markedPrefixes (keys A)).any (fun p => underPrefix p k) = false := by
+    cases hany : (markedPrefixes (keys A)).any (fun p => underPrefix p k) with
+    | false => rfl
+    | true =>
+      obtain ⟨p, hp, hmem⟩ := (dropped_iff _ _).1 hany
+      exact absurd hmem (hu p hp)
+  simp [keepAnnotation, this, hl]
+
+theorem marked_annotation_dropped (A : Kvs) (k : String) (p : List Char) (hp : pfx k = some p)
+    (hm : p ∈ markedPrefixes (keys A)) : keepAnnotation (markedPrefixes (keys A)) k = false := by
+  have : (markedPrefixes (keys A)).any (fun p => underPrefix p k) = true := (dropped_iff _ _).2 ⟨p, hp, hm⟩
+  simp [keepAnnotation, this]
+
+/-! ## the excluded points, executed (witnesses for the known findings F8, F9) -/
+
+def diffLen (x y : Except Err J) : Option Nat :=
+  match x, y with
+  | .ok e, .ok e' => some (diff e e' []).length
+  | _, _ => none
+
+def cfgStatusProgress : Cfg :=
+  ⟨.leaf (.annotations "kopf.zalando.org" "last-handled-configuration" true []),
+   [.status ["status", "kopf", "progress"]], []⟩
+
+/-- F8: with `StatusProgressStorage` and a handler on field `status` (outside `ExtraAvoids "status"`),
+    kopf's own touch (`status.kopf.dummy`) is an essential change. -/
+theorem extra_status_witness :
+    diffLen
+      (essence cfgStatusProgress [["status"]]
+        (.obj [("metadata", .obj [("name", .str "x")]), ("spec", .obj [("a", .num 1)]), ("status", .obj [("x", .num 1)])]))
+      (essence cfgStatusProgress [["status"]]
+        (.obj [("metadata", .obj [("name", .str "x")]), ("spec", .obj [("a", .num 1)]),
+               ("status", .obj [("x", .num 1), ("kopf", .obj [("dummy", .str "2020")])])]))
+      = some 1 := by decide
+
+def cfgMultiDev : Cfg :=
+  ⟨.multi [.annotations "kopf.dev" "last-handled-configuration" true []],
+   [.annotations "kopf.zalando.org", .status ["status", "kopf", "progress"]], []⟩
+
+def rsBody (anns : List (String × J)) : J :=
+  .obj [("kind", .str "ReplicaSet"),
+        ("metadata", .obj [("name", .str "rs"), ("ownerReferences", .arr [.obj [("kind", .str "Deployment")]]),
+                           ("annotations", .obj anns)]),
+        ("spec", .obj [("replicas", .num 1)])]
+
+/-- F9: `MultiDiffBaseStorage` re-builds from the essence, where `kind`/`ownerReferences` are gone, so
+    the `-ofDRS`-marked last-handled key under the unmarked prefix `kopf.dev` is not cleaned: the
+    framework's own last-handled write is an essential change. -/
+theorem multi_drs_witness :
+    diffLen (essence cfgMultiDev [] (rsBody [("plain", .str "v")]))
+      (essence cfgMultiDev [] (rsBody [("plain", .str "v"), ("kopf.dev/last-handled-configuration-ofDRS", .str "{}")]))
+      = some 1 := by decide
+
+/-
+  Not proved in Lean (covered by the differential tie and the Python oracle only), stated here so
+  that the gap is visible:
+  * `own_unmarked_prefix_invisible_partial` — own keys under a custom prefix that is *not* marked
+    (before the first marker write; prefixes starting with `kopf.`, for which no marker is written)
+    are cleaned by the exact last-handled keys (`AnnotationsDiffBaseStorage.build`) and by
+    `AnnotationsProgressStorage.clear`; the essence-level invariance for that route, and the
+    absent→present transition of the `metadata.annotations` mapping itself, are not proved.
+    F9 (known finding) shows the route is in fact broken for `MultiDiffBaseStorage` + `-ofDRS`.
+  * label / ordinary-annotation changes reach the diff of the essences (the analogue of
+    `payload_change_detected` below `metadata`): proved only at the level of the annotation filter
+    (`ordinary_annotation_kept`).
+  * `J.WF (essence …)`.
+-/
 
 end Kopf.C04
